@@ -1051,10 +1051,30 @@ class Hyperplane(Subspace):
     """Model for a geodesic hyperplane in hyperbolic space."""
 
     #TODO: reimplement so ideal_basis is aux_data
-    def __init__(self, hyperplane_data, **kwargs):
+    def __init__(self, hyperplane_data, normals_only=False, **kwargs):
+        """Parameters
+        ----------
+        hyperplane_data : HyperbolicObject or ndarray
+            Either the full data of a hyperplane (or array of
+            hyperplanes), i.e. an array of shape `(..., n, n)` whose
+            rows are a spacelike normal vector followed by an ideal
+            basis, or an array of shape `(..., n)` of spacelike normal
+            vectors.
+        normals_only : bool
+            If `True`, always interpret `hyperplane_data` as an array
+            of normal vectors. This is needed to build exactly `n`
+            hyperplanes from `n` normal vectors in R^n, since an array
+            of shape `(n, n)` is otherwise read as the full data of a
+            single hyperplane.
+
+        """
         self.unit_ndims = 2
         self.aux_ndims = 0
         self.dual_ndims = 0
+
+        if normals_only:
+            self._compute_ideal_basis(hyperplane_data)
+            return
 
         try:
             self._construct_from_object(hyperplane_data, **kwargs)
